@@ -374,6 +374,18 @@ def int_from_str(it, args, callee):
     if i >= n:
         return Err(Opaque('ParseIntError'))
     val = 0
+    ndig = n - i
+    if 10 ** ndig - 1 <= hi:
+        # cannot overflow: accumulate in the bit-vector domain of the result (no int/bit-vector tie for the solver)
+        acc = BVV(0, w)
+        while i < n:
+            if not is_(bs[i], 0x30, 0x39):
+                return Err(Opaque('ParseIntError'))
+            d = BVV(bs[i] - 0x30, w) if isinstance(bs[i], int) else z3.ZeroExt(w - 8, bs[i] - BVV(0x30, 8))
+            acc = acc * BVV(10, w) + d
+            i += 1
+        acc = simp(-acc if neg else acc)
+        return Ok(acc.as_signed_long() if z3.is_bv_value(acc) and signed else (acc.as_long() if z3.is_bv_value(acc) else acc))
     while i < n:
         if not is_(bs[i], 0x30, 0x39):
             return Err(Opaque('ParseIntError'))
